@@ -1595,3 +1595,10 @@ class ApplicationEntity:
         invalid = [ii for ii in contexts if not isinstance(ii, PresentationContext)]
         if invalid:
             raise ValueError("'contexts' must be a list of PresentationContext items")
+
+        # PS3.8 Table 9-13: one abstract syntax and one or more transfer syntaxes
+        if any(cx.abstract_syntax is None or not cx.transfer_syntax for cx in contexts):
+            raise ValueError(
+                "Each requested presentation context must have an abstract syntax "
+                "and at least one transfer syntax"
+            )
